@@ -1,4 +1,4 @@
-//go:build verif
+//go:build verif && c07
 
 // Package c07gen holds the deterministic input grammar shared by all C07 harnesses
 // (lib/encoding, lib/compress, lib/record, protoparser/influx, engine/immutable, engine).
